@@ -56,7 +56,7 @@ def stall_points():
 
 
 def signature(events):
-    return "|".join("%s:%s" % ("w" if n.startswith("vfpool") else n[3:6], k) for _, k, n, _ in events
+    return "|".join("%s:%s" % ("w" if poolmon.is_worker_name(n) else n[3:6], k) for _, k, n, _ in events
                     if k not in ("get_call", "get_ret"))
 
 
@@ -128,6 +128,11 @@ def run(ctx):
         ev = run_one(ctx, inj, sc, mode, rng.randrange(1 << 30), p=p)
         if i < 2 and ctx.shard == 0:
             ctx.sample({"scenario": sc, "mode": mode, "events": [[e[1], e[2], e[3]] for e in ev[:30]]})
+    # stall points = what the scenario threads were actually seen executing (no method name is assumed)
+    learned = sorted(inj.seen)
+    if learned:
+        pts = [{"qualname": q, "line": l, "role": r, "k": k} for (q, l, r) in learned for k in (1, 2)]
+        ctx.counters["stall-points-enumerated"] = len(pts)
     mine = [pt for i, pt in enumerate(pts) if ctx.mine(i)]
     rng.shuffle(mine)
     reps = ctx.pick(3, 30)
